@@ -87,7 +87,8 @@ def k_align(run, case):
         x, y = np.asfortranarray(x), np.asfortranarray(y)
     elif lay == 2:
         x, y = np.ascontiguousarray(x.T).T, np.ascontiguousarray(y.T).T
-    out = contracts.outcome_of(G.umeyama_alignment, x, y, with_scale)
+    with contracts.numeric_env(run.rng(case, 31)):
+        out = contracts.outcome_of(G.umeyama_alignment, x, y, with_scale)
     info = contracts.umeyama_oracle(run, case, x, y, with_scale, out, cloud_rng=run.rng(case, 7))
     run.seen(case, core.digest(x, y, with_scale), nontrivial=info is not None,
              cls=["align:" + cls, "with_scale" if with_scale else "rigid",
@@ -158,6 +159,8 @@ def k_degenerate(run, case):
     scale = 10.0**rng.uniform(-3, 6)
     if cls == "coincident":
         p = rng.normal(size=3) * scale
+        if rng.random() < .5:
+            p = np.round(p * 8) / 8 if rng.random() < .7 else np.zeros(3)  # the mean is exact: covariance exactly 0
         x = np.repeat(p[:, None], n, axis=1)
         y = rng.normal(size=(3, n)) * scale if rng.random() < .5 else \
             np.repeat((rng.normal(size=3) * scale)[:, None], n, axis=1)
@@ -188,8 +191,10 @@ def k_degenerate(run, case):
     else:  # unequal_dim
         x = rng.normal(size=(3, n)) * scale
         y = rng.normal(size=(2, n)) * scale
-    out = contracts.outcome_of(G.umeyama_alignment, x, y, with_scale)
-    run.seen(case, core.digest(x, y, with_scale), cls=["degenerate:" + cls],
+    env = contracts.numeric_env(rng)
+    with env:
+        out = contracts.outcome_of(G.umeyama_alignment, x, y, with_scale)
+    run.seen(case, core.digest(x, y, with_scale), cls=["degenerate:" + cls, "numeric environment: " + env.kind],
              sample={"cls": cls, "outcome": out[0], "x_head": x[:, :3]})
     if cls == "unequal_dim":
         from evo.core.geometry import GeometryException
